@@ -194,7 +194,17 @@ def same_effect(f, g):
     def sts(fn):
         pn = fn["params"][0]["n"] if fn.get("params") else None
         out = []
+        top = []
         for x in ir.stmts(fn["body"]):
+            # the self-assignment test of an assignment operator wraps the same statements a constructor runs unconditionally
+            if isinstance(x, dict) and x.get("k") == "If" and x.get("else") is None:
+                c_ = unwrap_all_casts(x.get("cond"))
+                if isinstance(c_, dict) and c_.get("k") == "Bin" and c_.get("op") == "!=" and \
+                        any(isinstance(unwrap_all_casts(c_.get(sd)), dict) and unwrap_all_casts(c_[sd]).get("k") == "This" for sd in ("lhs", "rhs")):
+                    top.extend(ir.stmts(x.get("then")))
+                    continue
+            top.append(x)
+        for x in top:
             if isinstance(x, dict) and x.get("k") == "Return" and (x.get("e") is None or unwrap_all_casts(x["e"]).get("k") in ("This", "Un")):
                 continue
             if isinstance(x, dict) and x.get("k") == "Null":
